@@ -327,6 +327,16 @@ impl<'a, D: AsRef<[u8]>, P: AsRef<[usize]>> Lend<'a, D, P> {
     }
 
     pub fn new_from(rca: &'a RearCodedList<D, P>, from: usize) -> Self {
+        if from == rca.len() {
+            // Starting at the end: there might be no block to point to
+            let data = rca.data.as_ref();
+            return Lend {
+                rca,
+                index: from,
+                data: &data[data.len()..],
+                buffer: Vec::new(),
+            };
+        }
         let block = from / rca.k;
         let offset = from % rca.k;
 
